@@ -10,6 +10,10 @@ groups per slice, Thr groups reconstruct a slice):
   ascoded : the same model with the two deviations of the pinned code transcribed (AsCoded=TRUE) must
             VIOLATE NoPanic, StoredOnlyIfHashMatches and the terminal-state property (vacuity guard:
             the model is sharp enough to express the failures).
+  dissem  : every model starts from each content of the slot's dissemination spot (nothing / a shred of every
+            slice of the equivocating leader's other block / a shred of every slice of the block itself); the
+            spec's requester never reads it, the real block store is pre-populated through
+            add_shred_from_dissemination before the repair starts (graph: first step `populate`; loop: per scenario).
   graph   : Budgets=FALSE, every transition dumped and replayed into the real Repair / RepairRequestHandler
             / BlockstoreImpl (outputs and projected state compared after every step).
   resp    : responder cases (holding x request x sender) checked (AnswersVerify, NackWhenUnknown,
@@ -24,11 +28,11 @@ from ..core import ToolError
 
 INVS = ["Inv_StoredOnlyIfHashMatches", "Inv_ProvenRootsAreTrue", "Inv_NoPanic", "Inv_Progressable"]
 # action properties (checked by TLC on every transition; act/exp are outside the VIEW)
-PROPS = ["NoCorruption", "UnsolicitedIgnored", "GoodAnswersVerify", "InvalidChangesNothing"]
+PROPS = ["NoCorruption", "UnsolicitedIgnored", "GoodAnswersVerify", "InvalidChangesNothing", "DissemNeverWritten"]
 CHECKS = ["INVARIANTS", "  " + " ".join(INVS), "PROPERTIES", "  " + " ".join(PROPS)]
 WITNESSES = ["W_Stored", "W_StoredAfterHostileHit", "W_AllOutstandingAnswered"]
 # every hostile kind must have hit an outstanding request of every type it applies to, in the replay
-NEED_LABELS = ["start", "timeout", "good:lsr", "good:sr", "good:sh",
+NEED_LABELS = ["populate:empty", "populate:other", "populate:same", "start", "timeout", "good:lsr", "good:sr", "good:sh",
                "hostile:valid:lsr->lsr:hit", "hostile:valid:sr->sr:hit", "hostile:valid:sh->sh:hit",
                "hostile:valid:sh->sh:miss", "hostile:nack:nack->lsr:hit", "hostile:nack:nack->sr:hit",
                "hostile:nack:nack->sh:hit", "hostile:variant:sr->lsr:hit", "hostile:variant:lsr->sr:hit",
@@ -52,6 +56,7 @@ def cfg(ns, ng, thr, ascoded=False, budgets=False, max_hostile=0, max_timeouts=0
   MaxTimeouts = {max_timeouts}
   MaxAgain = {max_again}
   ScenLen = {scen_len}
+  Dissems = {{"empty", "other", "same"}}
 INIT {init}
 NEXT {nxt}
 CHECK_DEADLOCK {b(deadlock)}
